@@ -9,14 +9,11 @@ import (
 	"testing"
 
 	"github.com/ipld/go-ipld-prime"
-	"github.com/ipld/go-ipld-prime/codec/dagcbor"
-	"github.com/ipld/go-ipld-prime/codec/dagjson"
 	"pgregory.net/rapid"
 
 	"github.com/ucan-wg/go-ucan/token"
-	"github.com/ucan-wg/go-ucan/token/delegation"
-	"github.com/ucan-wg/go-ucan/token/invocation"
 
+	"verif/harness/api"
 	"verif/harness/h"
 	"verif/harness/keys"
 	"verif/harness/tok"
@@ -62,99 +59,6 @@ func timeClass(t tok.Tok) string {
 		chk(t.Inv.Iat)
 	}
 	return cls
-}
-
-type decoder struct {
-	name string
-	f    func(sealed, dagjson []byte) (token.Token, error)
-}
-
-func decoders(kind string) []decoder {
-	ds := []decoder{
-		{"token.FromSealed", func(s, j []byte) (token.Token, error) { t, _, err := token.FromSealed(s); return t, err }},
-		{"token.FromSealedReader", func(s, j []byte) (token.Token, error) {
-			t, _, err := token.FromSealedReader(bytes.NewReader(s))
-			return t, err
-		}},
-		{"token.FromDagCbor", func(s, j []byte) (token.Token, error) { return token.FromDagCbor(s) }},
-		{"token.Decode(dagcbor)", func(s, j []byte) (token.Token, error) { return token.Decode(s, dagcbor.Decode) }},
-		{"token.FromDagJson", func(s, j []byte) (token.Token, error) {
-			if j == nil {
-				return nil, errSkip
-			}
-			return token.FromDagJson(j)
-		}},
-		{"token.FromDagJsonReader", func(s, j []byte) (token.Token, error) {
-			if j == nil {
-				return nil, errSkip
-			}
-			return token.FromDagJsonReader(bytes.NewReader(j))
-		}},
-	}
-	if kind == "dlg" {
-		ds = append(ds,
-			decoder{"delegation.FromSealed", func(s, j []byte) (token.Token, error) { t, _, err := delegation.FromSealed(s); return nilIfErr(t, err) }},
-			decoder{"delegation.FromSealedReader", func(s, j []byte) (token.Token, error) {
-				t, _, err := delegation.FromSealedReader(bytes.NewReader(s))
-				return nilIfErr(t, err)
-			}},
-			decoder{"delegation.FromDagCbor", func(s, j []byte) (token.Token, error) { t, err := delegation.FromDagCbor(s); return nilIfErr(t, err) }},
-			decoder{"delegation.FromDagJson", func(s, j []byte) (token.Token, error) {
-				if j == nil {
-					return nil, errSkip
-				}
-				t, err := delegation.FromDagJson(j)
-				return nilIfErr(t, err)
-			}},
-			decoder{"delegation.FromIPLD", func(s, j []byte) (token.Token, error) {
-				n, err := ipld.Decode(s, dagcbor.Decode)
-				if err != nil {
-					return nil, err
-				}
-				t, err := delegation.FromIPLD(n)
-				return nilIfErr(t, err)
-			}},
-		)
-	} else {
-		ds = append(ds,
-			decoder{"invocation.FromSealed", func(s, j []byte) (token.Token, error) { t, _, err := invocation.FromSealed(s); return nilIfErrI(t, err) }},
-			decoder{"invocation.FromSealedReader", func(s, j []byte) (token.Token, error) {
-				t, _, err := invocation.FromSealedReader(bytes.NewReader(s))
-				return nilIfErrI(t, err)
-			}},
-			decoder{"invocation.FromDagCbor", func(s, j []byte) (token.Token, error) { t, err := invocation.FromDagCbor(s); return nilIfErrI(t, err) }},
-			decoder{"invocation.FromDagJson", func(s, j []byte) (token.Token, error) {
-				if j == nil {
-					return nil, errSkip
-				}
-				t, err := invocation.FromDagJson(j)
-				return nilIfErrI(t, err)
-			}},
-			decoder{"invocation.Decode(dagjson)", func(s, j []byte) (token.Token, error) {
-				if j == nil {
-					return nil, errSkip
-				}
-				t, err := invocation.Decode(j, dagjson.Decode)
-				return nilIfErrI(t, err)
-			}},
-		)
-	}
-	return ds
-}
-
-var errSkip = fmt.Errorf("skip")
-
-func nilIfErr(t *delegation.Token, err error) (token.Token, error) {
-	if err != nil {
-		return nil, err
-	}
-	return t, nil
-}
-func nilIfErrI(t *invocation.Token, err error) (token.Token, error) {
-	if err != nil {
-		return nil, err
-	}
-	return t, nil
 }
 
 func expectFromDescriptor(c *h.Ctx, d tok.Tok, v tok.View) {
@@ -295,33 +199,87 @@ func run(c *h.Ctx, cs Case) {
 	if js != nil && !bytes.Equal(js, jsCopy) {
 		c.Fail("C07/output-changed-by-later-call/dagjson/"+kind, "the bytes returned by ToDagJson changed after encoding another token (%d bytes)", len(js))
 	}
-	for _, dec := range decoders(kind) {
-		var got token.Token
-		var derr error
-		if pn, pv, _ := h.Try(func() { got, derr = dec.f(sealed, js) }); pn {
-			c.Fail("C07/decode-panics/"+dec.name, "%s panicked: %v", dec.name, pv)
-			continue
-		}
-		if derr == errSkip {
-			continue
-		}
-		codec := "cbor"
-		if len(dec.name) > 4 && (dec.name[len(dec.name)-8:] == "gJson" || bytes.Contains([]byte(dec.name), []byte("Json")) || bytes.Contains([]byte(dec.name), []byte("json"))) {
-			codec = "json"
-		}
+	judge := func(name, codec string, got token.Token, derr error) {
 		if derr != nil {
-			c.Fail(fmt.Sprintf("C07/unseal-rejects/%s/%s/time=%s", alg, codec, tcls), "%s rejects a token that was constructed and sealed successfully: %v\ndescriptor %+v", dec.name, derr, d)
-			continue
+			c.Fail(fmt.Sprintf("C07/unseal-rejects/%s/%s/time=%s", alg, codec, tcls), "%s rejects a token that was constructed and sealed successfully: %v\ndescriptor %+v", name, derr, d)
+			return
 		}
 		v1, err := tok.ViewOf(got)
 		if err != nil {
 			c.Fail("C07/accessors", "accessors of the decoded token fail: %v", err)
-			continue
+			return
 		}
 		if diff := tok.Diff(v0, v1); diff != "" {
-			c.Fail(fmt.Sprintf("C07/field-differs/%s/%s/%s", kind, tok.Field(diff), codec), "%s: decoded token differs from the constructed one: %s\ndescriptor %+v", dec.name, diff, d)
+			c.Fail(fmt.Sprintf("C07/field-differs/%s/%s/%s", kind, tok.Field(diff), codec), "%s: decoded token differs from the constructed one: %s\ndescriptor %+v", name, diff, d)
 		}
 		c.P.Class("decoded:" + codec)
+	}
+	// every decode entry point (harness/api) on the primary encodings
+	for _, format := range []string{"cbor", "json"} {
+		in := sealed
+		if format == "json" {
+			in = js
+		}
+		if in == nil {
+			continue
+		}
+		for di, dec := range api.Decoders(format) {
+			if dec.Typed != "" && dec.Typed != kind {
+				continue
+			}
+			if h.Tier() == "quick" && (di+len(sealed))%2 == 1 {
+				continue // quick tier: every other entry point per case (the offset varies with the case)
+			}
+			var got token.Token
+			var derr error
+			if pn, pv, _ := h.Try(func() { got, _, derr = dec.Bytes(in) }); pn {
+				c.Fail("C07/decode-panics/"+dec.Name, "%s panicked: %v", dec.Name, pv)
+				continue
+			}
+			judge(dec.Name, format, got, derr)
+		}
+	}
+	// every encode entry point: same bytes as the primary one under a deterministic signature scheme,
+	// otherwise decodable to the same token
+	deterministic := alg == keys.Ed25519 || alg == keys.RSA
+	slowKey := alg == keys.RSA && d.Issuer().Idx >= keys.RSAFast // 4096..8192-bit keys: one signature costs up to 0.5 s
+	for ei, enc := range api.Encoders {
+		if enc.Format == "json" && js == nil {
+			continue
+		}
+		if slowKey && ei%5 != len(sealed)%5 {
+			continue
+		}
+		if h.Tier() == "quick" && (ei+len(sealed))%2 == 1 {
+			continue
+		}
+		var out []byte
+		var eerr error
+		if pn, pv, _ := h.Try(func() { out, _, eerr = enc.Bytes(tk, priv) }); pn {
+			c.Fail("C07/encode-panics/"+enc.Name, "%s panicked: %v", enc.Name, pv)
+			continue
+		}
+		if eerr != nil {
+			c.Fail("C07/encode-fails/"+enc.Name, "%s failed on a token that ToSealed / ToDagJson encode: %v", enc.Name, eerr)
+			continue
+		}
+		primary := sealed
+		if enc.Format == "json" {
+			primary = js
+		}
+		if deterministic {
+			if !bytes.Equal(out, primary) {
+				c.Fail("C07/encoders-disagree/"+enc.Name, "%s produced other bytes than the primary encoder of the same format (%d vs %d bytes) under a deterministic signature scheme", enc.Name, len(out), len(primary))
+			}
+			continue
+		}
+		decs := api.Decoders(enc.Format)
+		dec := decs[(ei*7+len(out))%len(decs)]
+		if dec.Typed != "" && dec.Typed != kind {
+			dec = decs[0]
+		}
+		got, _, derr := dec.Bytes(out)
+		judge(enc.Name+" -> "+dec.Name, enc.Format, got, derr)
 	}
 	if d.OptionCount() >= 3 || d.HasNested() || alg != keys.Ed25519 {
 		c.P.NonTrivial([]any{kind, d.OptionBitmap(), alg, d.ValueShape()}, map[string]any{"descriptor": d, "sealed_len": len(sealed)})
